@@ -7,8 +7,16 @@ package main
 // attempts at spendable-1 / spendable / spendable+1 over every debit path that
 // can be driven for real, delegations over the three delegation paths,
 // undelegation + completion, slashing, clawback, new grants (merge) and
-// credits.  After every transaction: bank balance vs the locked amount computed
-// here from the stored schedule by an independent big.Int reference.
+// credits, and the ACCOUNT-TYPE operations: MsgConvertVestingAccount (vesting ->
+// plain EthAccount) at any point, MsgConvertIntoVestingAccount (plain -> vesting,
+// or a merge), MsgCreateClawbackVestingAccount{Merge}, MsgUpdateVestingFunder,
+// MsgClawback by the current / a stale funder.  After every transaction: bank
+// balance vs the locked amount computed here from the stored schedule by an
+// independent big.Int reference.  A successful MsgConvertVestingAccount must find
+// the schedule done (nothing locked up, nothing unvested, whatever is delegated);
+// if it does not, the discarded schedule is followed for the rest of the history
+// as if the account had not been converted ("obligation") and every later
+// successful transaction is checked against it as well.
 
 import (
 	"encoding/json"
@@ -51,7 +59,16 @@ var (
 	lkR       = addrN(41) // recipient of spends
 	lkG       = addrN(42) // authz grantee
 	lkR2      = addrN(43)
+	lkF2      = addrN(44) // second funder (MsgUpdateVestingFunder, stale / foreign signer)
 )
+
+// funder identities in inputs and in the Coq term: "" / "F" = 0 (the creating funder), "F2" = 1
+func lkFunder(who string) (sdk.AccAddress, int) {
+	if who == "F2" {
+		return lkF2, 1
+	}
+	return lkF, 0
+}
 
 type lkPeriod struct {
 	Len int64     `json:"len"`
@@ -71,7 +88,10 @@ type lkOp struct {
 	Amt   string   `json:"amt,omitempty"`   // absolute amount (mode abs), or second-denomination amount
 	DT    int      `json:"dt,omitempty"`    // seconds
 	Frac  string   `json:"frac,omitempty"`  // slash fraction, 1e-18 units
-	Sched *lkSched `json:"sched,omitempty"` // grant
+	Sched *lkSched `json:"sched,omitempty"` // grant, into
+	Who   string   `json:"who,omitempty"`   // signer of clawback / grant / into / updatefunder: "" = F, "F2"
+	To    string   `json:"to,omitempty"`    // updatefunder: the new funder
+	Merge bool     `json:"merge,omitempty"` // into: MsgConvertIntoVestingAccount{Merge}
 }
 
 type lkInput struct {
@@ -101,6 +121,7 @@ func lkBaseEnv() *lkEnv {
 	big1 := new(big.Int).Lsh(big.NewInt(1), 120)
 	funds := sdk.NewCoins(sdk.NewCoin(lkDenoms[0], sdkmath.NewIntFromBigInt(big1)), sdk.NewCoin(lkDenoms[1], sdkmath.NewIntFromBigInt(big1)))
 	must(testutil.FundAccount(e.Ctx, e.App.BankKeeper, lkF, funds))
+	must(testutil.FundAccount(e.Ctx, e.App.BankKeeper, lkF2, funds))
 	// short unbonding time so that undelegations complete inside a history
 	sp := e.App.StakingKeeper.GetParams(e.Ctx)
 	sp.UnbondingTime = 300 * time.Second
@@ -195,6 +216,9 @@ type lkRefAcc struct {
 }
 
 func lkRefOf(va *vestingtypes.ClawbackVestingAccount) lkRefAcc {
+	if va == nil { // a plain account: no schedule, nothing tracked
+		return lkRefAcc{Orig: [2]*big.Int{big.NewInt(0), big.NewInt(0)}, Tracked: [2]*big.Int{big.NewInt(0), big.NewInt(0)}}
+	}
 	r := lkRefAcc{Start: va.StartTime.Unix()}
 	conv := func(ps sdkvesting.Periods) []lkRefPeriod {
 		out := []lkRefPeriod{}
@@ -251,6 +275,42 @@ func (r *lkRefAcc) locked(t int64, d int) *big.Int {
 	return bigMax(a, new(big.Int).Sub(r.Orig[d], v))
 }
 
+// what the lock-up SCHEDULE still locks at t, whatever is delegated: original - unlocked (GetLockedUpCoins)
+func (r *lkRefAcc) lockedUp(t int64, d int) *big.Int {
+	return new(big.Int).Sub(r.Orig[d], lkRefEv(r.Start, r.Lockup, t, d))
+}
+
+// the time from which the schedule locks nothing in any denomination (end of both schedules)
+func (r *lkRefAcc) end() int64 {
+	e := r.Start
+	for _, ps := range [][]lkRefPeriod{r.Lockup, r.Vesting} {
+		at := r.Start
+		for _, p := range ps {
+			at += p.Len
+		}
+		if at > e {
+			e = at
+		}
+	}
+	return e
+}
+
+func (r lkRefAcc) clone() lkRefAcc {
+	c := r
+	for d := 0; d < 2; d++ {
+		c.Orig[d] = new(big.Int).Set(r.Orig[d])
+		c.Tracked[d] = new(big.Int).Set(r.Tracked[d])
+	}
+	return c
+}
+
+// the obligation of a schedule that a conversion discarded while it still locked coins
+type lkShadow struct {
+	ref  lkRefAcc // Tracked keeps following the SDK rules (TrackDelegation / TrackUndelegation) as if not converted
+	at   int64    // block time of the conversion
+	step int
+}
+
 // ---------------------------------------------------------------- observation
 type lkObs struct {
 	OK      bool      `json:"ok"`
@@ -272,6 +332,9 @@ type lkSnap struct {
 	va          *vestingtypes.ClawbackVestingAccount
 	ref         lkRefAcc
 	now         int64
+	funder      int         // 0 = F, 1 = F2 (vesting account only)
+	oblLocked   [2]*big.Int // locked by obligations of discarded schedules (0 unless a conversion went wrong)
+	oblUnvested *big.Int
 }
 
 func (e *lkEnv) snap() lkSnap {
@@ -282,14 +345,19 @@ func (e *lkEnv) snap() lkSnap {
 		s.locked[d] = big.NewInt(0)
 	}
 	s.df, s.dv = big.NewInt(0), big.NewInt(0)
+	s.oblLocked = [2]*big.Int{big.NewInt(0), big.NewInt(0)}
+	s.oblUnvested = big.NewInt(0)
+	s.ref = lkRefOf(s.va)
 	if s.va != nil {
+		if s.va.FunderAddress == lkF2.String() {
+			s.funder = 1
+		}
 		lc := s.va.LockedCoins(e.Ctx.BlockTime())
 		for d := 0; d < 2; d++ {
 			s.locked[d] = lc.AmountOf(lkDenoms[d]).BigInt()
 		}
 		s.df = s.va.DelegatedFree.AmountOf(lkDenoms[0]).BigInt()
 		s.dv = s.va.DelegatedVesting.AmountOf(lkDenoms[0]).BigInt()
-		s.ref = lkRefOf(s.va)
 	}
 	s.deleg = e.App.StakingKeeper.GetDelegatorBonded(e.Ctx, lkAccV).BigInt()
 	s.unb = e.App.StakingKeeper.GetDelegatorUnbonding(e.Ctx, lkAccV).BigInt()
@@ -298,6 +366,7 @@ func (e *lkEnv) snap() lkSnap {
 
 func (s *lkSnap) spendable(d int) *big.Int {
 	x := new(big.Int).Sub(s.bal[d], s.ref.locked(s.now, d))
+	x.Sub(x, s.oblLocked[d])
 	if x.Sign() < 0 {
 		return big.NewInt(0)
 	}
@@ -306,6 +375,7 @@ func (s *lkSnap) spendable(d int) *big.Int {
 
 func (s *lkSnap) delegatable() *big.Int {
 	x := new(big.Int).Sub(s.bal[0], s.ref.unvested(s.now, 0))
+	x.Sub(x, s.oblUnvested)
 	if x.Sign() < 0 {
 		return big.NewInt(0)
 	}
@@ -322,9 +392,7 @@ func (s *lkSnap) obs(err error) lkObs {
 	}
 	for d := 0; d < 2; d++ {
 		o.Bal[d], o.Locked[d] = s.bal[d].String(), s.locked[d].String()
-		if s.va != nil {
-			o.RefLock[d] = s.ref.locked(s.now, d).String()
-		}
+		o.RefLock[d] = s.ref.locked(s.now, d).String()
 	}
 	return o
 }
@@ -332,7 +400,7 @@ func (s *lkSnap) obs(err error) lkObs {
 // coqObs: the observation after a step; deleg / unb are passed explicitly (the harness' plain-arithmetic
 // expectation for ordinary steps, the staking module's figures for the resync step).
 func (s *lkSnap) coqObs(ok bool, deleg, unb *big.Int) string {
-	return fmt.Sprintf("Some (mklkobs %s %s %s %s %s %s %s %s %s)", coqBool(ok), coqZ(s.bal[0]), coqZ(s.bal[1]), coqZ(s.locked[0]), coqZ(s.locked[1]),
+	return fmt.Sprintf("Some (mklkobs %s %s %s %s %s %s %s %s %s %s)", coqBool(ok), coqBool(s.va != nil), coqZ(s.bal[0]), coqZ(s.bal[1]), coqZ(s.locked[0]), coqZ(s.locked[1]),
 		coqZ(s.df), coqZ(s.dv), coqZ(deleg), coqZ(unb))
 }
 
@@ -353,10 +421,10 @@ func (s *lkSnap) coqState(d int) string {
 		dv = va.DelegatedVesting.AmountOf(lkDenoms[1]).BigInt()
 		df = va.DelegatedFree.AmountOf(lkDenoms[1]).BigInt()
 	}
-	return fmt.Sprintf("(mklk (mklka %s %s %s %s %s %s %s) %s %s %s %s %s)",
+	return fmt.Sprintf("(mklkx (mklk (mklka %s %s %s %s %s %s %s) %s %s %s %s %s) true %s)",
 		coqZ(va.OriginalVesting.AmountOf(lkDenoms[d]).BigInt()), lkCoqPeriods(va.LockupPeriods, d), lkCoqPeriods(va.VestingPeriods, d),
 		coqZi(va.StartTime.Unix()), coqZi(va.EndTime), coqZ(dv), coqZ(df),
-		coqZ(s.bal[d]), coqZ(deleg), coqZ(unb), coqZi(s.now), coqBool(d == 0))
+		coqZ(s.bal[d]), coqZ(deleg), coqZ(unb), coqZi(s.now), coqBool(d == 0), coqN(s.funder))
 }
 
 // ---------------------------------------------------------------- transactions
@@ -587,6 +655,7 @@ func (e *lkEnv) apply(op lkOp, pre *lkSnap) lkStep {
 				return nil
 			})
 		case "clawback":
+			from, id := lkFunder(op.Who)
 			// the capped lockup schedule is an input of the model: ask the pure function (fresh copy: the
 			// value receiver shares the embedded base account)
 			if pre.va != nil {
@@ -594,19 +663,47 @@ func (e *lkEnv) apply(op lkOp, pre *lkSnap) lkStep {
 				base := *pre.va.BaseVestingAccount
 				cp.BaseVestingAccount = &base
 				upd, _ := cp.ComputeClawback(e.Ctx.BlockTime().Unix())
-				st.coq = append(st.coq, fmt.Sprintf("L2Clawback %s %s %s", lkCoqPeriods(upd.LockupPeriods, 0), lkCoqPeriods(upd.LockupPeriods, 1), coqZi(upd.EndTime)))
+				st.coq = append(st.coq, fmt.Sprintf("L2Clawback %s %s %s %s", coqN(id), lkCoqPeriods(upd.LockupPeriods, 0), lkCoqPeriods(upd.LockupPeriods, 1), coqZi(upd.EndTime)))
+			} else {
+				st.coq = append(st.coq, fmt.Sprintf("L2Clawback %s [] [] 0%%Z", coqN(id))) // a plain account: refused whatever the schedule
 			}
-			_, st.err = e.runMsg(vestingtypes.NewMsgClawback(lkF, lkAccV, lkR2))
+			_, st.err = e.runMsg(vestingtypes.NewMsgClawback(from, lkAccV, lkR2))
 		case "grant":
 			s := op.Sched
+			from, id := lkFunder(op.Who)
 			start := e.t0.Add(time.Duration(s.Start) * time.Second)
-			_, st.err = e.runMsg(vestingtypes.NewMsgCreateClawbackVestingAccount(lkF, lkAccV, start, lkPeriods(s.Lockup), lkPeriods(s.Vesting), true))
+			_, st.err = e.runMsg(vestingtypes.NewMsgCreateClawbackVestingAccount(from, lkAccV, start, lkPeriods(s.Lockup), lkPeriods(s.Vesting), true))
 			if st.err == nil {
 				va := e.vacc()
 				g := lkTotal(s.Vesting)
-				st.coq = append(st.coq, fmt.Sprintf("L2AddGrant %s %s %s %s %s %s %s %s", z(g[0]), z(g[1]), coqZi(va.StartTime.Unix()), coqZi(va.EndTime),
+				st.coq = append(st.coq, fmt.Sprintf("L2AddGrant %s %s %s %s %s %s %s %s %s", coqN(id), z(g[0]), z(g[1]), coqZi(va.StartTime.Unix()), coqZi(va.EndTime),
 					lkCoqPeriods(va.LockupPeriods, 0), lkCoqPeriods(va.LockupPeriods, 1), lkCoqPeriods(va.VestingPeriods, 0), lkCoqPeriods(va.VestingPeriods, 1)))
+			} else if pre.va == nil || id != pre.funder {
+				// refused before the schedules are looked at (not a vesting account / not the funder): the model must refuse too
+				st.coq = append(st.coq, fmt.Sprintf("L2AddGrant %s 0%%Z 0%%Z 0%%Z 0%%Z [] [] [] []", coqN(id)))
 			}
+		case "convert":
+			_, st.err = e.runMsg(vestingtypes.NewMsgConvertVestingAccount(lkAccV))
+			st.coq = append(st.coq, "L2Convert")
+		case "into":
+			s := op.Sched
+			from, id := lkFunder(op.Who)
+			start := e.t0.Add(time.Duration(s.Start) * time.Second)
+			_, st.err = e.runMsg(vestingtypes.NewMsgConvertIntoVestingAccount(from, lkAccV, start, lkPeriods(s.Lockup), lkPeriods(s.Vesting), op.Merge, false, nil))
+			if st.err == nil {
+				va := e.vacc()
+				g := lkTotal(s.Vesting)
+				st.coq = append(st.coq, fmt.Sprintf("L2ConvertInto %s %s %s %s %s %s %s %s %s %s", coqN(id), coqBool(op.Merge), z(g[0]), z(g[1]), coqZi(va.StartTime.Unix()), coqZi(va.EndTime),
+					lkCoqPeriods(va.LockupPeriods, 0), lkCoqPeriods(va.LockupPeriods, 1), lkCoqPeriods(va.VestingPeriods, 0), lkCoqPeriods(va.VestingPeriods, 1)))
+			} else if pre.va != nil && (!op.Merge || id != pre.funder) {
+				// a vesting account without --merge, or a merge by somebody else: refused before the schedules are looked at
+				st.coq = append(st.coq, fmt.Sprintf("L2ConvertInto %s %s 0%%Z 0%%Z 0%%Z 0%%Z [] [] [] []", coqN(id), coqBool(op.Merge)))
+			}
+		case "updatefunder":
+			from, id := lkFunder(op.Who)
+			to, tid := lkFunder(op.To)
+			_, st.err = e.runMsg(vestingtypes.NewMsgUpdateVestingFunder(from, to, lkAccV))
+			st.coq = append(st.coq, fmt.Sprintf("L2UpdateFunder %s %s", coqN(id), coqN(tid)))
 		default:
 			st.err = fmt.Errorf("bad op %q", op.Op)
 			st.skip = true
@@ -699,18 +796,34 @@ func lockedRunCase(id string, in lkInput) Case {
 	}
 	nOKSpend, nOKDeleg := 0, 0
 	slashed := false
-	oracle := ""
+	oracle, oracleObl := "", ""
 	fail := func(i int, op lkOp, msg string) {
 		if oracle == "" {
 			oracle = fmt.Sprintf("step %d (%s %s): %s", i, op.Op, op.Mode, msg)
 		}
 	}
+	// obligations of schedules discarded by a conversion that should not have succeeded; reported separately
+	failObl := func(i int, op lkOp, msg string) {
+		if oracleObl == "" {
+			oracleObl = fmt.Sprintf("step %d (%s %s): %s", i, op.Op, op.Mode, msg)
+		}
+	}
+	shadows := []*lkShadow{}
+	decorate := func(s *lkSnap) {
+		for _, sh := range shadows {
+			for d := 0; d < 2; d++ {
+				if l := sh.ref.locked(s.now, d); l.Sign() > 0 {
+					s.oblLocked[d].Add(s.oblLocked[d], l)
+				}
+			}
+			if u := sh.ref.unvested(s.now, 0); u.Sign() > 0 {
+				s.oblUnvested.Add(s.oblUnvested, u)
+			}
+		}
+	}
 	// expected (deleg, unbonding) by plain arithmetic; deviations (slash, share rounding) are fed to the model
 	expDeleg, expUnb := new(big.Int).Set(pre.deleg), new(big.Int).Set(pre.unb)
 	for i, op := range in.Ops {
-		if pre.va == nil {
-			break
-		}
 		st := e.apply(op, &pre)
 		if st.skip {
 			tags[op.Op+":skipped"] = true
@@ -732,13 +845,94 @@ func lockedRunCase(id string, in lkInput) Case {
 		if !ok {
 			res = "rejected"
 		}
-		tags[fmt.Sprintf("%s %s:%s", op.Op, op.Mode, res)] = true
-		if post.va == nil {
-			fail(i, op, "the account is no longer a vesting account")
-			break
+		kind := ""
+		if pre.va == nil {
+			kind = " [plain]"
 		}
-		// ---- the property on the implementation's behaviour
+		tags[fmt.Sprintf("%s %s%s:%s", op.Op, op.Mode, kind, res)] = true
 		now := post.now
+		// ---- the account-type operations
+		switch op.Op {
+		case "convert":
+			if pre.va != nil {
+				// shape of the state the conversion was requested in (from the reference, not from the code)
+				r := pre.ref
+				unv, lup, trk := false, false, "none"
+				for d := 0; d < 2; d++ {
+					unv = unv || r.unvested(now, d).Sign() > 0
+					lup = lup || r.lockedUp(now, d).Sign() > 0
+				}
+				// vested but locked up: is it covered by the tracked delegation (bond denomination)
+				v0 := lkRefEv(r.Start, r.Vesting, now, 0)
+				luv := sub(v0, bigMin(lkRefEv(r.Start, r.Lockup, now, 0), v0))
+				switch {
+				case r.Tracked[0].Sign() == 0:
+				case r.Tracked[0].Cmp(luv) < 0:
+					trk = "partial"
+				default:
+					trk = "full"
+				}
+				tags[fmt.Sprintf("convert: unvested=%v locked-up=%v tracked-delegation=%s unbonding-in-flight=%v slashed=%v -> %s", unv, lup, trk, pre.unb.Sign() > 0, slashed, res)] = true
+			}
+			if ok {
+				if pre.va == nil || post.va != nil {
+					fail(i, op, fmt.Sprintf("MsgConvertVestingAccount succeeded but the account kind is vesting=%v -> vesting=%v", pre.va != nil, post.va != nil))
+					break
+				}
+				// the property: a clawback vesting account may stop being one only when its SCHEDULE is done:
+				// GetVestingCoins(t) = 0 and GetLockedUpCoins(t) = original - unlocked = 0, whatever is delegated
+				r := pre.ref
+				bad := false
+				for d := 0; d < 2; d++ {
+					u, l := r.unvested(now, d), r.lockedUp(now, d)
+					if u.Sign() > 0 || l.Sign() > 0 {
+						bad = true
+						fail(i, op, fmt.Sprintf("MsgConvertVestingAccount succeeded at block time t0%+ds although the schedule still locks coins: locked up per the lock-up schedule %s %s (original %s, unlocked %s), unvested %s, tracked delegated %s, balance %s; the lock-up ends %d s later — the account is now a plain account and the schedule is gone",
+							now-e.t0.Unix(), l, lkDenoms[d], r.Orig[d], sub(r.Orig[d], l), u, r.Tracked[d], post.bal[d], r.end()-now))
+					}
+				}
+				if bad {
+					shadows = append(shadows, &lkShadow{ref: r.clone(), at: now, step: i})
+					tags["convert:ok-with-locked-coins"] = true
+				} else {
+					tags["convert:ok-schedule-done"] = true
+				}
+			}
+		case "into":
+			if ok && pre.va == nil && post.va != nil {
+				tags["into:plain->vesting"] = true
+			}
+			if ok && pre.va != nil {
+				tags["into:merged"] = true
+			}
+		case "updatefunder":
+			if ok && post.funder == pre.funder {
+				fail(i, op, "MsgUpdateVestingFunder succeeded without changing the funder")
+			}
+		}
+		if ok && op.Op != "convert" && op.Op != "into" && (pre.va != nil) != (post.va != nil) {
+			fail(i, op, fmt.Sprintf("the account kind changed (vesting=%v -> vesting=%v) by an operation that is not a conversion", pre.va != nil, post.va != nil))
+		}
+		// obligations follow the SDK tracking rules as if the account had not been converted
+		if len(shadows) > 0 && ok {
+			switch {
+			case lkDelegOps[op.Op] && post.va == nil:
+				sh := shadows[len(shadows)-1]
+				sh.ref.Tracked[0].Add(sh.ref.Tracked[0], st.amt[0])
+			case op.Op == "endblock" && post.va == nil:
+				y := sub(pre.unb, post.unb)
+				for _, sh := range shadows {
+					if y.Sign() <= 0 {
+						break
+					}
+					x := bigMin(sh.ref.Tracked[0], y)
+					sh.ref.Tracked[0] = sub(sh.ref.Tracked[0], x)
+					y = sub(y, x)
+				}
+			}
+		}
+		decorate(&post)
+		// ---- the property on the implementation's behaviour
 		switch {
 		case lkSpendOps[op.Op] && ok:
 			nOKSpend++
@@ -753,7 +947,7 @@ func lockedRunCase(id string, in lkInput) Case {
 			}
 		case lkDelegOps[op.Op] && ok:
 			nOKDeleg++
-			if u := post.ref.unvested(now, 0); post.bal[0].Cmp(u) < 0 {
+			if u := new(big.Int).Add(post.ref.unvested(now, 0), post.oblUnvested); post.bal[0].Cmp(u) < 0 {
 				fail(i, op, fmt.Sprintf("delegation of %s accepted: balance %s is now below the unvested amount %s — unvested coins were delegated", st.amt[0], post.bal[0], u))
 			}
 		}
@@ -769,10 +963,24 @@ func lockedRunCase(id string, in lkInput) Case {
 				under = true
 			}
 		}
+		checked := ok && !lkDelegOps[op.Op] && op.Op != "adv" && op.Op != "endblock" && op.Op != "slash"
 		if under {
 			tags[fmt.Sprintf("balance-below-locked after %s (slashed-before=%v)", op.Op, slashed)] = true
-			if lkStrict && ok && !lkDelegOps[op.Op] && op.Op != "adv" && op.Op != "endblock" && op.Op != "slash" {
+			if lkStrict && checked {
 				fail(i, op, "after this successful transaction the balance is below the locked amount")
+			}
+		}
+		// the same rule against the obligations of discarded schedules (on top of the stored account's own locked amount)
+		if len(shadows) > 0 && checked && op.Op != "convert" {
+			for d := 0; d < 2; d++ {
+				need := new(big.Int).Add(post.ref.locked(now, d), post.oblLocked[d])
+				if post.oblLocked[d].Sign() > 0 && post.bal[d].Cmp(need) < 0 {
+					sh := shadows[len(shadows)-1]
+					failObl(i, op, fmt.Sprintf("coins left the account %d seconds before the lock-up end after a conversion at step %d (block time t0%+ds): after this successful %s the %s balance %s is %s below %s, the amount the discarded schedule still locks now (original %s, unlocked and vested %s, tracked delegated as if not converted %s)",
+						sh.ref.end()-now, sh.step, sh.at-e.t0.Unix(), op.Op, lkDenoms[d], post.bal[d], sub(need, post.bal[d]), need,
+						sh.ref.Orig[d], bigMin(lkRefEv(sh.ref.Start, sh.ref.Lockup, now, d), lkRefEv(sh.ref.Start, sh.ref.Vesting, now, d)), sh.ref.Tracked[d]))
+					tags["obligation:balance-below-discarded-schedule"] = true
+				}
 			}
 		}
 		// ---- model steps
@@ -817,6 +1025,9 @@ func lockedRunCase(id string, in lkInput) Case {
 				steps = append(steps, fmt.Sprintf("(L2Complete %s, None)", coqZ(y)))
 				expUnb.Sub(expUnb, y)
 				tags["unbonding-completed"] = true
+				if pre.va == nil {
+					tags["unbonding-completed [plain]"] = true
+				}
 			}
 		}
 		if op.Op == "endblock" || op.Op == "slash" || post.deleg.Cmp(expDeleg) != 0 || post.unb.Cmp(expUnb) != 0 {
@@ -841,15 +1052,21 @@ func lockedRunCase(id string, in lkInput) Case {
 	sort.Strings(tl)
 	c.Obs = obsAll
 	c.Coq = fmt.Sprintf("(%s,\n  [%s])", init, strings.Join(steps, ";\n   "))
-	c.OracleOK = oracle == ""
-	c.OracleMsg = oracle
+	msgs := []string{}
+	for _, m := range []string{oracle, oracleObl} {
+		if m != "" {
+			msgs = append(msgs, m)
+		}
+	}
+	c.OracleOK = len(msgs) == 0
+	c.OracleMsg = strings.Join(msgs, " || AND LATER: ")
 	// class = shape of the input: a grant is merged after the account's stake was slashed
 	seenSlash := false
 	for _, op := range in.Ops {
 		if op.Op == "slash" {
 			seenSlash = true
 		}
-		if op.Op == "grant" && seenSlash {
+		if (op.Op == "grant" || (op.Op == "into" && op.Merge)) && seenSlash {
 			c.Class = "vesting:grant-after-slash"
 		}
 	}
@@ -906,7 +1123,82 @@ func lkGenSched(r *Rng, startLo, startHi int, scale int) lkSched {
 	return s
 }
 
+// end of the vesting and of the lock-up schedule, in seconds relative to the creation block time
+func lkEnds(s lkSched) (vestEnd, lockEnd int64) {
+	vestEnd, lockEnd = s.Start, s.Start
+	for _, p := range s.Vesting {
+		vestEnd += p.Len
+	}
+	for _, p := range s.Lockup {
+		lockEnd += p.Len
+	}
+	return
+}
+
+var lkSpendNames = []string{"send", "send", "multisend", "authzsend", "ethsend", "ethsend", "ethcontract", "daofund", "govdeposit", "fee", "ethfee"}
+var lkDelegNames = []string{"delegate", "authzdelegate", "pdelegate"}
+
+func lkWho(r *Rng, pF2 int) string {
+	if r.Chance(pF2) {
+		return "F2"
+	}
+	return ""
+}
+
+// one random operation of the general mix
+func lkGenOp(r *Rng, in *lkInput, scale int) lkOp {
+	spend := lkSpendNames
+	if in.Erc20 {
+		spend = append(append([]string{}, spend...), "convertcoin", "convertcoin", "erc20send")
+	}
+	x := r.Intn(100)
+	switch {
+	case x < 34:
+		op := lkOp{Op: spend[r.Intn(len(spend))], D: r.Intn(2), Mode: []string{"sp-1", "sp", "sp+1", "sp+1", "half", "one"}[r.Intn(6)]}
+		if op.Op == "multisend" && r.Chance(50) {
+			op.Amt = "1"
+		}
+		if in.Erc20 && op.D == 1 && (op.Op == "send" || op.Op == "multisend" || op.Op == "authzsend") {
+			// a registered coin pair makes MsgSend convert the whole spendable balance to ERC20 tokens first:
+			// a different debit amount than the message's; keep these on the bond denomination
+			op.D = 0
+		}
+		return op
+	case x < 50:
+		return lkOp{Op: lkDelegNames[r.Intn(3)], Mode: []string{"dg-1", "dg", "dg+1", "dg+1", "half", "one"}[r.Intn(6)]}
+	case x < 58:
+		return lkOp{Op: "undelegate", Mode: []string{"sp", "half", "one", "sp-1"}[r.Intn(4)]}
+	case x < 66:
+		return lkOp{Op: "endblock", DT: []int{1, 100, 350, 900}[r.Intn(4)]}
+	case x < 77:
+		return lkOp{Op: "adv", DT: []int{1, 10, 100, 400, 1500}[r.Intn(5)]}
+	case x < 80:
+		return lkOp{Op: "slash", Frac: []string{"10000000000000000", "100000000000000000", "333333333333333333", "500000000000000000"}[r.Intn(4)], DT: r.Intn(4)}
+	case x < 83:
+		a := r.Big(scale)
+		return lkOp{Op: "receive", D: r.Intn(2), Mode: "abs", Amt: a.Add(a, big.NewInt(1)).String()}
+	case x < 87:
+		s := lkGenSched(r, -1500, 1500, scale)
+		return lkOp{Op: "grant", Sched: &s, Who: lkWho(r, 20)}
+	case x < 90:
+		return lkOp{Op: "clawback", Who: lkWho(r, 20)}
+	case x < 95:
+		return lkOp{Op: "convert"}
+	case x < 98:
+		s := lkGenSched(r, -1500, 1500, scale)
+		return lkOp{Op: "into", Sched: &s, Who: lkWho(r, 20), Merge: r.Chance(40)}
+	default:
+		if r.Chance(65) {
+			return lkOp{Op: "updatefunder", Who: "", To: "F2"}
+		}
+		return lkOp{Op: "updatefunder", Who: "F2", To: ""}
+	}
+}
+
 func lkGen(r *Rng) lkInput {
+	if r.Chance(35) {
+		return lkGenAccountType(r)
+	}
 	scale := []int{12, 64, 90}[r.Intn(3)]
 	in := lkInput{Create: "create", Sched: lkGenSched(r, -1500, 400, scale), Extra: [2]string{"0", "0"}}
 	if r.Chance(30) {
@@ -923,44 +1215,147 @@ func lkGen(r *Rng) lkInput {
 		in.Extra[1] = r.Big(40).String()
 	}
 	in.Erc20 = r.Chance(25)
-	spend := []string{"send", "send", "multisend", "authzsend", "ethsend", "ethsend", "ethcontract", "daofund", "govdeposit", "fee", "ethfee"}
-	if in.Erc20 {
-		spend = append(spend, "convertcoin", "convertcoin", "erc20send")
-	}
-	dlg := []string{"delegate", "authzdelegate", "pdelegate"}
 	n := 18 + r.Intn(14)
 	for k := 0; k < n; k++ {
-		x := r.Intn(100)
-		switch {
-		case x < 38:
-			op := lkOp{Op: spend[r.Intn(len(spend))], D: r.Intn(2), Mode: []string{"sp-1", "sp", "sp+1", "sp+1", "half", "one"}[r.Intn(6)]}
-			if op.Op == "multisend" && r.Chance(50) {
-				op.Amt = "1"
-			}
-			if in.Erc20 && op.D == 1 && (op.Op == "send" || op.Op == "multisend" || op.Op == "authzsend") {
-				// a registered coin pair makes MsgSend convert the whole spendable balance to ERC20 tokens first:
-				// a different debit amount than the message's; keep these on the bond denomination
-				op.D = 0
-			}
-			in.Ops = append(in.Ops, op)
-		case x < 56:
-			in.Ops = append(in.Ops, lkOp{Op: dlg[r.Intn(3)], Mode: []string{"dg-1", "dg", "dg+1", "dg+1", "half", "one"}[r.Intn(6)]})
-		case x < 64:
-			in.Ops = append(in.Ops, lkOp{Op: "undelegate", Mode: []string{"sp", "half", "one", "sp-1"}[r.Intn(4)]})
-		case x < 72:
-			in.Ops = append(in.Ops, lkOp{Op: "endblock", DT: []int{1, 100, 350, 900}[r.Intn(4)]})
-		case x < 84:
-			in.Ops = append(in.Ops, lkOp{Op: "adv", DT: []int{1, 10, 100, 400, 1500}[r.Intn(5)]})
-		case x < 88:
-			in.Ops = append(in.Ops, lkOp{Op: "slash", Frac: []string{"10000000000000000", "100000000000000000", "333333333333333333", "500000000000000000"}[r.Intn(4)], DT: r.Intn(4)})
-		case x < 92:
-			a := r.Big(scale)
-			in.Ops = append(in.Ops, lkOp{Op: "receive", D: r.Intn(2), Mode: "abs", Amt: a.Add(a, big.NewInt(1)).String()})
-		case x < 96:
-			s := lkGenSched(r, -1500, 1500, scale)
-			in.Ops = append(in.Ops, lkOp{Op: "grant", Sched: &s})
+		in.Ops = append(in.Ops, lkGenOp(r, &in, scale))
+	}
+	return in
+}
+
+// Histories around the account-type operations: the block time is steered to a chosen side of the vesting
+// end and of the lock-up end (the generator knows the schedule), the locked-up amount is delegated not at
+// all / partly / fully, optionally with an undelegation in flight, a clawback, a merged grant or a slash
+// before; then MsgConvertVestingAccount, and the later life of the coins: undelegation, unbonding maturity
+// (the staking end-blocker after the unbonding time), spend attempts at spendable / spendable+1 over the
+// spend paths, delegation attempts, a conversion back into a vesting account, a second conversion.
+func lkGenAccountType(r *Rng) lkInput {
+	scale := []int{12, 64, 90}[r.Intn(3)]
+	in := lkInput{Create: "create", Sched: lkGenSched(r, -1500, 100, scale), Extra: [2]string{"0", "0"}}
+	if r.Chance(20) {
+		in.Create = "convert"
+		if r.Chance(50) {
+			x := r.Big(scale)
+			in.PreDeleg = x.Add(x, big.NewInt(1)).String()
+		}
+	}
+	if r.Chance(40) {
+		in.Extra[0] = r.Big(scale).String()
+	}
+	if r.Chance(20) {
+		in.Extra[1] = r.Big(40).String()
+	}
+	in.Erc20 = r.Chance(15)
+	vestEnd, lockEnd := lkEnds(in.Sched)
+	cur := int64(0)
+	add := func(op lkOp) {
+		if op.Op == "adv" || op.Op == "endblock" {
+			cur += int64(op.DT)
+		}
+		in.Ops = append(in.Ops, op)
+	}
+	advTo := func(t int64) {
+		if t > cur {
+			add(lkOp{Op: "adv", DT: int(t - cur)})
+		}
+	}
+	spendOp := func(mode string) lkOp {
+		op := lkOp{Op: lkSpendNames[r.Intn(len(lkSpendNames))], Mode: mode}
+		if in.Erc20 && r.Chance(30) {
+			op = lkOp{Op: "convertcoin", Mode: mode}
+		}
+		return op
+	}
+	for k := r.Intn(4); k > 0; k-- {
+		add(lkGenOp(r, &in, scale))
+	}
+	rounds := 1 + r.Intn(2)
+	for round := 0; round < rounds; round++ {
+		// where in the schedule the conversion is requested
+		lo, hi := vestEnd, lockEnd
+		if lo > hi {
+			lo, hi = hi, lo
+		}
+		var target int64
+		switch r.Intn(8) {
+		case 0:
+			target = lo - 1 - int64(r.Intn(50)) // before both ends
+		case 1:
+			target = lo // exactly at the first end
+		case 2, 3, 4:
+			target = lo + 1 + int64(r.Intn(int(hi-lo)+1))/2 // between the two ends (inside the lock-up when vesting ends first)
+		case 5:
+			target = hi - 1
+		case 6:
+			target = hi
 		default:
-			in.Ops = append(in.Ops, lkOp{Op: "clawback"})
+			target = hi + 1 + int64(r.Intn(500))
+		}
+		advTo(target)
+		// how much of the locked-up amount is delegated
+		switch r.Intn(6) {
+		case 0:
+		case 1:
+			add(lkOp{Op: lkDelegNames[r.Intn(3)], Mode: "half"})
+		case 2:
+			add(lkOp{Op: lkDelegNames[r.Intn(3)], Mode: "dg-1"})
+		default:
+			add(lkOp{Op: lkDelegNames[r.Intn(3)], Mode: "dg"})
+		}
+		// what happened before the conversion
+		if r.Chance(25) {
+			add(lkOp{Op: "undelegate", Mode: []string{"half", "one", "sp"}[r.Intn(3)]}) // in flight
+		}
+		if r.Chance(12) {
+			add(lkOp{Op: "clawback", Who: lkWho(r, 15)})
+		}
+		if r.Chance(12) {
+			s := lkGenSched(r, -1500, 1500, scale)
+			add(lkOp{Op: "grant", Sched: &s, Who: lkWho(r, 10)})
+		}
+		if r.Chance(8) {
+			add(lkOp{Op: "slash", Frac: []string{"10000000000000000", "500000000000000000"}[r.Intn(2)]})
+		}
+		if r.Chance(10) {
+			add(lkOp{Op: "updatefunder", Who: "", To: "F2"})
+		}
+		if r.Chance(30) {
+			add(spendOp([]string{"sp", "sp+1", "half"}[r.Intn(3)]))
+		}
+		add(lkOp{Op: "convert"})
+		// the later life of the coins
+		if r.Chance(30) {
+			add(spendOp([]string{"sp", "sp+1"}[r.Intn(2)]))
+		}
+		if r.Chance(85) {
+			add(lkOp{Op: "undelegate", Mode: []string{"sp", "sp", "half"}[r.Intn(3)]})
+			add(lkOp{Op: "endblock", DT: []int{350, 350, 100, 900}[r.Intn(4)]})
+		}
+		for k := 1 + r.Intn(3); k > 0; k-- {
+			add(spendOp([]string{"sp+1", "sp", "sp+1", "one"}[r.Intn(4)]))
+		}
+		if r.Chance(30) {
+			add(lkOp{Op: lkDelegNames[r.Intn(3)], Mode: []string{"dg", "dg+1"}[r.Intn(2)]})
+		}
+		if r.Chance(25) {
+			add(lkOp{Op: "convert"}) // a second request (the account may be plain by now)
+		}
+		if r.Chance(15) {
+			add(lkOp{Op: "clawback", Who: lkWho(r, 30)})
+		}
+		if r.Chance(45) {
+			// a vesting account again (or a merge when the conversion was refused); the next round follows this schedule
+			s := lkGenSched(r, int(cur)-1500, int(cur)+100, scale)
+			add(lkOp{Op: "into", Sched: &s, Who: lkWho(r, 20), Merge: r.Chance(35)})
+			vestEnd, lockEnd = lkEnds(s)
+			add(spendOp("sp+1"))
+			add(lkOp{Op: lkDelegNames[r.Intn(3)], Mode: "dg+1"})
+			if r.Chance(50) {
+				s2 := lkGenSched(r, int(cur)-1500, int(cur)+1500, scale)
+				add(lkOp{Op: "grant", Sched: &s2, Who: lkWho(r, 20)})
+			}
+		}
+		for k := r.Intn(3); k > 0; k-- {
+			add(lkGenOp(r, &in, scale))
 		}
 	}
 	return in
